@@ -343,6 +343,27 @@ def enc_value(v):
     return {"t": "other", "r": repr(v)[:80]}
 
 
+def replay_vm_case(ctx, data):
+    """--replay for the checks whose cases are (source, arguments, globals before, prescribed result): compiles the saved source with
+    the tree under test, runs the saved invocation and compares with the prescription stored in the replay file."""
+    import nslast as A
+    case = data.get("case") or {}
+    ref = (case.get("reference") or {})
+    if not isinstance(case.get("source"), str) or "ret" not in ref or not isinstance(case.get("args"), dict):
+        print("(this replay file holds no single VM invocation; re-run the check)")
+        return 0
+    st, r = compile_source(case["source"], {"optimize": bool(case.get("optimize", False))})
+    if st != "ok":
+        print(f"REPLAY: the compiler refuses the program now ({r})")
+        return 1
+    obs = A.run_vm(A.link(r), "f", case["args"], case.get("globals_before") or {}, budget=300000)
+    same = obs["ok"] and ref.get("status") == "done" and A.same(ref["ret"], obs["ret"])
+    print(f"REPLAY: VM now returns {A.show_py(obs.get('ret')) if obs['ok'] else obs.get('exc')}; prescribed {json.dumps(ref.get('ret'))} -> {'agrees' if same else 'still differs'}")
+    if not same:
+        print(f"VIOLATION property={ctx.prop} replay={data.get('_path', '?')}")
+    return 0 if same else 1
+
+
 def main_wrapper(fn, prop, mod=None):
     import argparse
     ap = argparse.ArgumentParser()
@@ -350,13 +371,16 @@ def main_wrapper(fn, prop, mod=None):
     ap.add_argument("--replay")
     ap.add_argument("--selftest", action="store_true")
     a = ap.parse_args(sys.argv[2:])
+    if a.replay:
+        a.replay = os.path.abspath(a.replay)
     seed = int(os.environ.get("VERIF_SEED", "0"))
     ctx = Ctx(prop, a.tier, seed)
     try:
         ctx.snapshot()
         if a.replay:
             data = json.loads(Path(a.replay).read_text())
-            print(json.dumps({k: v for k, v in data.items() if k != "more"}, indent=1, default=str))
+            data["_path"] = a.replay
+            print(json.dumps({k: v for k, v in data.items() if k not in ("more", "_path")}, indent=1, default=str))
             if mod is not None and hasattr(mod, "replay"):
                 rc = mod.replay(ctx, data)
             else:
